@@ -414,6 +414,10 @@ def run(tier, replay=None):
     emitrules.check_display(prog, rep, wanted={'Locale', 'ExtensionsMap', 'LanguageIdentifier', 'UnicodeExtensionList', 'TransformExtensionList', 'PrivateExtensionList'})
     for which in ('core', 'dispatch'):
         parserules.check(prog, rep, which)
+    # "drop-in": a Locale built by any constructor or conversion carries an id in the one canonical representation a LanguageIdentifier built
+    # from the same subtags has (sorted, duplicate-free, None when empty) - the typestate obligations of every constructor / mutator (shared with C10)
+    from . import c10
+    c10.representation_obligations(rep, cfgs=('K0',))
     # values built by the compile-time macros belong to this property's domain as well: the macro witnesses of C16 (cached per tree)
     from . import c16
     c16.witness_family(rep, tier)
